@@ -7,7 +7,7 @@ LEAN_MODULES = ["Shm.Props.C16"]
 GEN_TABLES = ["StoreSample.lean"]
 LEVEL = "fault_enumeration"
 QUICK_N = 10
-QUICK = ["create-small-private", "setattr-label-private-key", "setattr-label-big", "destroy-key", "setpin-user", "login-wrong-pin", "genkey-aes", "reinit-token", "copy-big", "inittoken-free"]
+QUICK = ["create-small-private", "setattr-label-private-key", "setattr-label-big", "destroy-key", "setpin-user", "login-wrong-pin", "genkey-aes", "reinit-token", "copy-big", "inittoken-free", "read-aes-key", "read-ec-private", "read-ed-private", "read-ed-public", "read-big-data", "search-all"]
 RULE = ("K16: for each of 19 mutating calls (C_CreateObject small public / small private / 10 kB private, C_SetAttributeValue (label) on a private key / public data / a 10 kB "
         "object, C_CopyObject big / with public->private upgrade, C_DestroyObject data / key, C_GenerateKey, C_GenerateKeyPair, C_SetPIN user / SO, C_InitPIN, C_Login with a wrong "
         "PIN / the right PIN after a wrong one, C_Logout, C_InitToken on an initialised token) on a scene of two tokens with PINs, public, private, large and key objects: the "
